@@ -4,7 +4,7 @@ From Coq Require Import ZArith List Bool QArith Qcanon.
 From SG Require Model.StdCombi.
 From SG Require Import Base.Sx Base.QcUtil Model.CombiScheme Model.RefTree Model.DimWise Model.DimWiseInterp
      Model.DimWiseExact Model.DimWiseFast Model.DimWiseLinMod Model.DimWiseWire.
-From SG Require Model.ExtendSplit Model.ESExact.
+From SG Require Model.ExtendSplit Model.ESExact Model.CellScheme.
 Import ListNotations.
 Open Scope Z_scope.
 
@@ -46,6 +46,22 @@ Fixpoint rot_flags (o : dw_opts) (steps : list (list (list Qc))) (st : dw_state)
 
 Definition state_tab (o : dw_opts) (s : dw_state) : list (Z -> list Qc) :=
   ctab o s (st_lmin s) (Z.to_nat (list_max (st_lmax s) - st_lmin s + 1)).
+
+(* sub 4: cell strategy (Model/CellScheme.v): (dim lmin a b rounds exponent-vectors) -> per state (container cells (start end levelvec active),
+   size of cell_dict, integral of every monomial) ; rounds = the container positions refined in each refine() call *)
+Definition of_cellobj (st : CellScheme.cstate) (k : ExtendSplit.box) : sx :=
+  match CellScheme.find_cell k (CellScheme.cs_dict st) with
+  | Some c => Lv [of_LQc (CellScheme.c_s c); of_LQc (CellScheme.c_e c); of_LZ (CellScheme.c_lv c); sx_bool (CellScheme.c_active c)]
+  | None => sx_err 4
+  end.
+Definition of_cstate (st : CellScheme.cstate) (exps : list (list nat)) : sx :=
+  Lv [ Lv (map (of_cellobj st) (CellScheme.cs_objs st));
+       Zv (Z.of_nat (length (CellScheme.cs_dict st)));
+       Lv (map (fun ex => match CellScheme.cell_integral st (CellScheme.monomial ex) with Some v => of_Qc v | None => sx_err 7 end) exps) ].
+Fixpoint cell_states (st : CellScheme.cstate) (rounds : list (list nat)) : list CellScheme.cstate :=
+  match rounds with [] => [] | r :: rs => let st' := CellScheme.refine_round st r in st' :: cell_states st' rs end.
+Definition get_Lnat (s : sx) : option (list nat) := match get_LZ s with Some l => Some (map Z.to_nat l) | None => None end.
+Definition get_LLnat (s : sx) : option (list (list nat)) := match s with Lv l => opt_all (map get_Lnat l) | _ => None end.
 
 Definition of_optQc (v : option Qc) : sx := match v with Some q => of_Qc q | None => sx_err 7 end.
 Definition of_hat (ji : lv * lv) : sx := Lv [of_LZ (fst ji); of_LZ (snd ji)].
@@ -120,6 +136,18 @@ Definition entry_C04 (sub : Z) (x : sx) : sx :=
            Lv (map (fun exps => Lv [of_LZ (map Z.of_nat exps); of_Qc (ESExact.es_integral a b areas exps)])
                    (ESExact.multilinear_exps (length a))) ]
     | _, _, _ => sx_err 2
+    end
+  | 4, Lv [Zv dim; Zv lmin; a; b; rounds; exps] =>
+    match get_LQc a, get_LQc b, get_LLnat rounds, get_LLnat exps with
+    | Some a, Some b, Some rounds, Some exps =>
+      let st0 := CellScheme.cell_init (Z.to_nat dim) lmin a b in
+      Lv (map (fun st => of_cstate st exps) (st0 :: cell_states st0 rounds))
+    | _, _, _, _ => sx_err 2
+    end
+  | 5, Lv [Zv dim; Zv lmin; a; b] =>      (* verified checker for the initial state of the cell strategy *)
+    match get_LQc a, get_LQc b with
+    | Some a, Some b => sx_bool (CellScheme.cell_init_okb (Z.to_nat dim) lmin a b)
+    | _, _ => sx_err 2
     end
   | 3, h =>
     match decode_history h with
